@@ -8,6 +8,33 @@ use std::time::{SystemTime, UNIX_EPOCH};
 const LOCK_FILE_NAME: &str = "renamify.lock";
 const STALE_LOCK_TIMEOUT_SECS: u64 = 300; // 5 minutes
 
+/// Verification hook (feature `verif-hooks`): lets an external driver interleave the file-system
+/// calls of several processes deterministically. A no-op unless RENAMIFY_VERIF_SCHED_DIR is set.
+#[cfg(feature = "verif-hooks")]
+fn sched_point(name: &str) {
+    if let (Ok(dir), Ok(me)) = (
+        std::env::var("RENAMIFY_VERIF_SCHED_DIR"),
+        std::env::var("RENAMIFY_VERIF_PROC"),
+    ) {
+        let dir = PathBuf::from(dir);
+        let seq_file = dir.join(format!("{}.seq", me));
+        let n: u64 = fs::read_to_string(&seq_file)
+            .ok()
+            .and_then(|s| s.trim().parse().ok())
+            .unwrap_or(0);
+        let _ = fs::write(&seq_file, format!("{}", n + 1));
+        let _ = fs::write(dir.join(format!("{}.at.{}", me, n)), name);
+        let go = dir.join(format!("{}.go.{}", me, n));
+        while !go.exists() {
+            std::thread::sleep(std::time::Duration::from_millis(1));
+        }
+    }
+}
+
+#[cfg(not(feature = "verif-hooks"))]
+#[inline(always)]
+fn sched_point(_name: &str) {}
+
 #[derive(Debug)]
 pub struct LockFile {
     path: PathBuf,
@@ -21,7 +48,9 @@ impl LockFile {
         let lock_path = renamify_dir.join(LOCK_FILE_NAME);
 
         // Check if lock file exists
+        sched_point("exists");
         if lock_path.exists() {
+            sched_point("read");
             // Read existing lock file
             let mut content = String::new();
             File::open(&lock_path)
@@ -43,6 +72,7 @@ impl LockFile {
 
                 if current_time - timestamp > STALE_LOCK_TIMEOUT_SECS {
                     // Lock is stale, remove it
+                    sched_point("remove");
                     fs::remove_file(&lock_path).context("Failed to remove stale lock file")?;
                 } else if is_process_running(pid) {
                     // Process is still running
@@ -54,6 +84,7 @@ impl LockFile {
                     ));
                 } else {
                     // Process is not running, remove the lock
+                    sched_point("remove");
                     fs::remove_file(&lock_path).context("Failed to remove orphaned lock file")?;
                 }
             }
@@ -74,12 +105,14 @@ impl LockFile {
         }
 
         // Write lock file atomically
+        sched_point("create");
         let mut file = OpenOptions::new()
             .write(true)
             .create_new(true) // Fail if file exists (race condition protection)
             .open(&lock_path)
             .context("Failed to create lock file")?;
 
+        sched_point("write");
         file.write_all(lock_content.as_bytes())
             .context("Failed to write lock file")?;
 
@@ -112,7 +145,9 @@ impl LockFile {
 impl Drop for LockFile {
     fn drop(&mut self) {
         // Best effort cleanup on drop
+        sched_point("drop_exists");
         if self.path.exists() {
+            sched_point("drop_remove");
             let _ = fs::remove_file(&self.path);
         }
     }
